@@ -244,12 +244,12 @@ def run_py_reader_cases(ctx, pyrt, cases, rng):
 
 def py_obs_coq(tok):
     if tok == "EOF":
-        return "PEof"
+        return "PyEof"
     if tok == "ERR:BufferError":
-        return "PFault BufferErr"      # the resize quirk of _fill_buffer; the machine model predicts exactly where
+        return "PyFault BufferErr"      # the resize quirk of _fill_buffer; the machine model predicts exactly where
     if tok.startswith("ERR:"):
-        return "PFault PStale"         # any other exception never matches the model
-    return "P" + obs_coq(tok)
+        return "PyFault PStale"         # any other exception never matches the model
+    return "Py" + obs_coq(tok)
 
 
 def pop_coq(op):
@@ -274,3 +274,90 @@ def py_reader_cases_v(cases, observed):
             "Definition cases : list pcase := [\n " + ";\n ".join(items) + "\n].\n"
             "Definition MM := Eval vm_compute in mismatches pcase_ok_machine cases.\nPrint MM.\n"
             "Definition MA := Eval vm_compute in mismatches pcase_ok_abs cases.\nPrint MA.\n")
+
+
+# ------------------------------------------------------------------ Python writer (CodedOutputStream)
+def gen_py_wscript(rng, maxops=10, hostile=False):
+    """ops: (kind, arg).  Guarded scripts use what generated code uses; hostile ones add raw unchecked byte stores, varints
+    above 2**64 and structs wider than the buffer (the machine model predicts the exception)."""
+    ops = []
+    kinds = ["b", "v", "v", "f", "B", "B", "D", "F", "e"] + (["n", "n", "V"] if hostile else [])
+    for _ in range(rng.randint(1, maxops)):
+        k = rng.choice(kinds)
+        if k in ("b", "n"):
+            ops.append((k, rng.randrange(256)))
+        elif k == "v":
+            ops.append(("v", rng.choice(EDGE64) if rng.random() < 0.6 else rng.randrange(2 ** 64)))
+        elif k == "V":
+            ops.append(("v", rng.randrange(2 ** 64, 2 ** 90)))
+        elif k == "f":
+            w = rng.choice([1, 2, 4, 8])
+            ops.append(("f%d" % w, rng.randrange(256 ** w)))
+        elif k in ("B", "D"):
+            n = rng.choice([0, 1, 2, 5, 9, 10, 11, 15, 16, 17, 31, 32, 33, 40, 70])
+            ops.append((k, [rng.randrange(256) for _ in range(n)]))
+        elif k == "e":
+            ops.append(("e", rng.choice([0, 1, 2, 8, 10, 16, 100])))
+        else:
+            ops.append(("F", None))
+    return ops
+
+
+def py_wop_text(op):
+    k, a = op
+    if k == "F":
+        return "F"
+    if k in ("B", "D"):
+        return k + ":" + hexs(a)
+    if k == "b":
+        return "e:1 n:%d" % a          # the composite generated code uses
+    return "%s:%d" % (k, a)
+
+
+def py_wop_coq(op):
+    k, a = op
+    if k == "F":
+        return "PWFlush"
+    if k == "B":
+        return "PWBytes " + coq_bytes(a)
+    if k == "D":
+        return "PWDirect " + coq_bytes(a)
+    if k == "b":
+        return "PWByte %d" % a
+    if k == "n":
+        return "PWByteNC %d" % a
+    if k == "e":
+        return "PWEnsure %d" % a
+    if k == "v":
+        return "PWVar %d" % a
+    return "PWFixed %s %d" % (k[1:], a)
+
+
+PY_WERR = {"": 0, "ERR:IndexError": 1, "ERR:error": 2, "ERR:AssertionError": 3}
+
+
+def run_py_writer_cases(ctx, pyrt, cases):
+    from vlib import PY_VT
+    lines = ["out %d %s" % (bs, " ".join(py_wop_text(o) for o in ops)) for bs, ops in cases]
+    rc, o, e = sh([PY_VT, os.path.join(VERIF, "harness/py/coded_driver.py"), pyrt],
+                  input="\n".join(lines) + "\n", timeout=900)
+    outs = [x for x in o.split("\n") if x != ""]
+    if rc != 0 or len(outs) < len(cases):
+        raise RuntimeError("python coded driver failed: " + e[-2000:])
+    res = []
+    for ln in outs[:len(cases)]:
+        h, ch, err = ln.split("|")
+        bs = [] if h == "-" else [int(h[i:i + 2], 16) for i in range(0, len(h), 2)]
+        res.append((bs, [int(x) for x in ch.split(",") if x], err))
+    return res
+
+
+def py_writer_cases_v(cases, observed):
+    items = []
+    for (bs, ops), (data, chunks, err) in zip(cases, observed):
+        items.append("(%d%%nat, %s, %s, %s, %d%%nat)" % (bs, "[" + "; ".join(py_wop_coq(o) for o in ops) + "]", coq_bytes(data),
+                                                       "[" + ";".join("%d%%nat" % c for c in chunks) + "]", PY_WERR.get(err, 4)))
+    return ("From YV Require Import Base.Wire Model.CodedCpp Model.CodedPy Model.CodedCases.\n"
+            "Definition cases : list pwcase := [\n " + ";\n ".join(items) + "\n].\n"
+            "Definition MM := Eval vm_compute in mismatches pwcase_ok_machine cases.\nPrint MM.\n"
+            "Definition MA := Eval vm_compute in mismatches pwcase_ok_abs cases.\nPrint MA.\n")
